@@ -480,6 +480,86 @@ def stepArgs (w : World) (op : String) (a : Args) : World × String :=
         let wtxt := if a.flag "nowin" then "na" else s!"{win.1}:{win.2}"
         (w, s!"len={n} valid=1 det=1 starved=0 win={wtxt} sel={sel}")
       | _, _, _, _ => (w, "bad-op:rand-uniform")
+  | "geom" => withMap w a fun m =>
+    -- a geometric shape = the pixel ranges it renders at the map resolution (from hpgeom) + a value
+    let n := a.pos.headD ""
+    match parseRanges (a.getD "ranges" "_") with
+    | none => (w, "bad-op:ranges")
+    | some R =>
+      let op := a.getD "op" "or"
+      let mode := a.getD "mode" "ior"
+      let bits? := (a.get? "bits").bind parseNats
+      let sc? := (a.get? "value").bind parseVal
+      -- the operand handed to update_values_pix
+      let operand : Except Err Val :=
+        match m.kind, bits?, sc? with
+        | .wide _, some bits, _ =>
+          if bits.any (· ≥ m.maxbits) then .error .index else .ok (.bytes (bitvalsToPacked bits m.maxbits))
+        | .wide _, none, some _ => .error .type          -- packing an int as a bit list
+        | _, some _, _ => .error .value                   -- a bit list on a non-wide map
+        | _, none, some v => .ok v
+        | _, none, none => .error (.bad "value")
+      let apply (target : MapObj) (opName : String) : Except Err MapObj := do
+        let v ← operand
+        apiUpdateRanges target opName R (some v) false
+      if mode == "ior" then
+        match apply m op with
+        | .ok m' => (w.put n m', "ok")
+        | .error e => (w.put n { m with cache := none }, errLine e)
+      else if mode == "or" then
+        match apply { m with cache := none } op with
+        | .ok m' => (w.put (a.getD "r" "tmp") { m' with cache := none }, "ok")
+        | .error e => (w, errLine e)
+      else if mode == "realize" then
+        -- realize_geom: integer map; bit lists only on wide masks; integer value within the dtype
+        let chk : Except Err Unit :=
+          if !m.kind.isIntegerMap then .error .value
+          else match bits?, sc?, m.kind with
+            | some _, _, .wide _ => .ok ()
+            | some _, _, _ => .error .value
+            | none, some (.num k 0), .plain (.int b sg) => if wrapInt b sg k != k then .error .value else .ok ()
+            | none, some (.num _ 0), _ => .error .value      -- integer value, boolean / packed map: np.iinfo(bool)
+            | none, some (.bool _), _ => .error .value      -- np.iinfo of a boolean dtype
+            | _, _, _ => .error .value
+        match chk with
+        | .error e => (w, errLine e)
+        | .ok _ =>
+          match apply m "or" with
+          | .ok m' => (w.put n m', "ok")
+          | .error e => (w.put n { m with cache := none }, errLine e)
+      else if mode == "getmap" || mode == "getmaplike" then
+        -- get_map: empty map of the requested type (wide: width from the largest bit), then the pixels
+        let kindR : Except Err (Kind × Option Val) :=
+          match bits? with
+          | some bits =>
+            (match m.kind, mode with
+             | .wide nb, "getmaplike" =>
+               if 8 * nb ≤ bits.foldl max 0 then .error .value else .ok (.wide nb, none)
+             | .wide _, _ => .ok (.wide ((bits.foldl max 0 + 1 - 1) / 8 + 1), none)
+             | _, _ => .error .value)
+          | none =>
+            (match m.kind with
+             | .plain (.int b sg) => .ok (.plain (.int b sg), some (.num 0 0))
+             | .plain .bool => .ok (.plain .bool, some (.bool false))
+             | .packed => .ok (.plain .bool, some (.bool false))
+             | .plain (.flt b) => .ok (.plain (.flt b), none)
+             | .wide _ => .error .type
+             | .recd _ _ => .error .runtime)
+        match kindR with
+        | .error e => (w, errLine e)
+        | .ok (kind, sent) =>
+          match apiMakeEmpty m.covord m.spord kind sent [] with
+          | .error e => (w, errLine e)
+          | .ok e =>
+            let res := match bits? with
+              | some bits => apiSetBits e (expand R) bits false
+              | none => (match sc? with
+                  | some v => apiUpdate e "replace" (expand R) (some [v]) true
+                  | none => .error (.bad "value"))
+            match res with
+            | .ok r => (w.put (a.getD "r" "tmp") { r with cache := none }, "ok")
+            | .error er => (w, errLine er)
+      else (w, "bad-op:mode")
   | "vals" => withMap w a fun m => (w, showVals ((List.range m.npix).map m.abs))
   | "get" => withMap w a fun m =>
     let pix? : Option (List Nat) :=
